@@ -23,19 +23,30 @@ def byte_counters(prog):
         if len(ps) != 2 or not int_type(qtype(ps[0])) or "*" not in qtype(ps[1]) and "[" not in qtype(ps[1]):
             continue
         v = ps[0]["name"]
-        loops = [m for m in walk(prog.body(f)) if m.get("kind") == "WhileStmt"]
+        loops = [m for m in walk(prog.body(f)) if m.get("kind") in ("WhileStmt", "ForStmt")]
         if len(loops) != 1:
             continue
         lp = loops[0]
-        cond = strip(kids(lp)[0])
+        raw = lp.get("inner", [])
+        cond = strip(kids(lp)[0]) if lp["kind"] == "WhileStmt" else (strip(raw[2]) if len(raw) > 2 and raw[2] else None)
+        if cond is None:
+            continue
         ok_cond = (cond.get("kind") == "BinaryOperator" and cond.get("opcode") in (">", "!=") and ref_name(strip(kids(cond)[0], casts=True)) == v and
                    ce.try_eval(kids(cond)[1]) == 0) or ref_name(strip(cond, casts=True)) == v
-        shifts = [m for m in walk(kids(lp)[-1]) if m.get("kind") == "CompoundAssignOperator" and m.get("opcode") == ">>=" and
+        # the shift may sit in the body or in the increment part of a for loop; the step of the counter / cursor in the body
+        shifts = [m for m in walk(lp) if m.get("kind") == "CompoundAssignOperator" and m.get("opcode") == ">>=" and
                   ref_name(strip(kids(m)[0], casts=True)) == v and ce.try_eval(kids(m)[1]) == 8]
         incs = [m for m in walk(kids(lp)[-1]) if m.get("kind") == "UnaryOperator" and m.get("opcode") == "++"]
         rets = [m for m in walk(prog.body(f)) if m.get("kind") == "ReturnStmt" and kids(m)]
-        if ok_cond and len(shifts) == 1 and len(incs) == 1 and len(rets) == 1 and \
-                ref_name(strip(kids(rets[0])[0], casts=True)) == ref_name(strip(kids(incs[0])[0], casts=True)):
+        if not (ok_cond and len(shifts) == 1 and len(incs) == 1 and len(rets) == 1):
+            continue
+        stepped = ref_name(strip(kids(incs[0])[0], casts=True))
+        r = strip(kids(rets[0])[0], casts=True)
+        counter_ret = ref_name(r) == stepped
+        # ... or a cursor walking the destination, the count being its distance from the destination
+        cursor_ret = r.get("kind") == "BinaryOperator" and r.get("opcode") == "-" and ref_name(strip(kids(r)[0], casts=True)) == stepped and \
+            ref_name(strip(kids(r)[1], casts=True)) == ps[1]["name"]
+        if counter_ret or cursor_ret:
             out[fn] = 0       # index of the value parameter
     return out
 
